@@ -493,20 +493,35 @@ where
     }
 }
 
-fn kv_gen(bits: u32) -> impl Fn(Tier, &mut dyn FnMut(Keys) -> bool) -> bool {
-    move |tier, f| {
-        if !int_inputs(tier, bits, u64::MAX, 1000, f) {
+#[derive(Clone, Debug, Hash, Serialize, Deserialize)]
+struct KvCase {
+    /// key type: 32 = u32, 64 = u64
+    key_bits: u8,
+    keys: Keys,
+}
+
+fn kv_gen(tier: Tier, f: &mut dyn FnMut(KvCase) -> bool) -> bool {
+    for key_bits in [32u8, 64] {
+        if !int_inputs(tier, key_bits as u32, u64::MAX, 1000, &mut |keys| f(KvCase { key_bits, keys })) {
             return false;
         }
         // default config: sort_u64 becomes parallel at 10_000 and really splits at 20_000 (O(n^2) rearrangement: thorough only)
         if tier == Tier::Thorough {
             for shape in [KShape::WideReversed, KShape::HighByteOnly] {
-                if !f(Keys::Grid { shape, n: 20_001 }) {
+                if !f(KvCase { key_bits, keys: Keys::Grid { shape, n: 20_001 } }) {
                     return false;
                 }
             }
         }
-        true
+    }
+    true
+}
+
+fn run_kv_case(c: &KvCase) -> Outcome {
+    if c.key_bits == 32 {
+        run_kv(&c.keys, 32, |v| v as u32)
+    } else {
+        run_kv(&c.keys, 64, |v| v)
     }
 }
 
@@ -561,14 +576,15 @@ struct AdvCfg {
 }
 
 #[derive(Clone, Debug, Hash, Serialize, Deserialize)]
-struct AdvCase {
-    keys: Keys,
-    cfg: AdvCfg,
+enum AdvInput {
+    U32(Keys),
+    U64(Keys),
+    Str(Strs),
 }
 
 #[derive(Clone, Debug, Hash, Serialize, Deserialize)]
-struct AdvStrCase {
-    strs: Strs,
+struct AdvCase {
+    input: AdvInput,
     cfg: AdvCfg,
 }
 
@@ -594,19 +610,18 @@ fn adv_config(strat: Strat, c: &AdvCfg) -> AdvancedRadixSortConfig {
 fn adv_cfgs(strat: Strat) -> Vec<AdvCfg> {
     let base = AdvCfg { bits: 8, par: 0, ins_thr: 100, simd: true, threads: 0, secure: false };
     let mut v = Vec::new();
-    let lsd = |v: &mut Vec<AdvCfg>, ins_thr: u32| {
-        for bits in [1u8, 4, 8, 11, 16] {
-            for par in [0u32, 1, 4, 16] {
-                for simd in [true, false] {
-                    v.push(AdvCfg { bits, par, simd, ins_thr, ..base });
+    match strat {
+        Strat::Forced(SortingStrategy::LsdRadix) => {
+            for bits in [1u8, 4, 8, 11, 16] {
+                for par in [0u32, 1, 4, 16] {
+                    for simd in [true, false] {
+                        v.push(AdvCfg { bits, par, simd, ..base });
+                    }
                 }
             }
+            v.push(AdvCfg { par: 4, threads: 3, ..base });
+            v.push(AdvCfg { par: 4, secure: true, ..base });
         }
-        v.push(AdvCfg { par: 4, threads: 3, ..base });
-        v.push(AdvCfg { par: 4, secure: true, ..base });
-    };
-    match strat {
-        Strat::Forced(SortingStrategy::LsdRadix) => lsd(&mut v, 100),
         // same code path as forced LsdRadix: a few configurations only
         Strat::NonAdaptive => {
             v.push(base);
@@ -635,59 +650,47 @@ fn adv_cfgs(strat: Strat) -> Vec<AdvCfg> {
     v
 }
 
-fn adv_path(strat: Strat, c: &AdvCfg, n: usize) -> String {
+/// Which code path a case takes: (coarse path used in failure classes, detailed path used as pass class).
+/// `keys` are the `extract_key` values of the input in input order (needed to replicate `is_nearly_sorted`).
+fn adv_path(strat: Strat, c: &AdvCfg, keys: &[u64]) -> (String, String) {
+    let n = keys.len();
     let simd_count = c.simd && RadixCpu::detect().has_advanced_simd() && n >= 16;
-    let lsd = |n: usize| {
+    let lsd = || {
         let thr = c.par as usize;
         let base = if c.par > 0 && n >= thr {
             if n < 2 * thr {
-                "lsd-par-fallback-seq"
+                "par-fallback-seq"
             } else {
-                "lsd-par"
+                "par"
             }
         } else {
-            "lsd-seq"
+            "seq"
         };
-        // in lsd-par the chunks (ceil(n/workers) items) are what is counted with SIMD; "simdcount" then means n>=16 overall
-        format!("{}{}/bits{}", base, if simd_count { "+simdcount" } else { "" }, c.bits)
+        // in "par" the chunks (ceil(n/workers) items) are what is counted with SIMD; "+simdcount" means n >= 16 overall
+        let coarse = if simd_count { "lsd+simdcount" } else { "lsd" };
+        (coarse.to_string(), format!("{coarse}/{base}/bits{}", c.bits))
     };
+    let same = |s: &str| (s.to_string(), s.to_string());
     match strat {
-        Strat::Forced(SortingStrategy::Insertion) => "insertion".into(),
-        Strat::Forced(SortingStrategy::TimSort) => "timsort".into(),
-        Strat::Forced(SortingStrategy::LsdRadix) | Strat::NonAdaptive => lsd(n),
-        Strat::Forced(SortingStrategy::MsdRadix) => format!("msd/ins{}", c.ins_thr),
-        Strat::Forced(SortingStrategy::Adaptive) => "forced-adaptive".into(),
+        Strat::Forced(SortingStrategy::Insertion) => same("insertion"),
+        Strat::Forced(SortingStrategy::TimSort) => same("timsort"),
+        Strat::Forced(SortingStrategy::LsdRadix) | Strat::NonAdaptive => lsd(),
+        Strat::Forced(SortingStrategy::MsdRadix) => ("msd".to_string(), format!("msd/ins{}", c.ins_thr)),
+        Strat::Forced(SortingStrategy::Adaptive) => same("forced-adaptive"),
         Strat::Auto => {
             if n <= c.ins_thr as usize {
-                "auto:insertion".into()
+                same("insertion")
             } else {
-                format!("auto:timsort-or-{}", lsd(n))
+                // AdvancedRadixSort::is_nearly_sorted: inversions among the first min(1000, n) keys < sample/10
+                let sample = n.min(1000);
+                let inv = (1..sample).filter(|&i| keys[i] < keys[i - 1]).count();
+                if n < 2 || inv < sample / 10 {
+                    same("timsort")
+                } else {
+                    lsd()
+                }
             }
         }
-    }
-}
-
-fn run_adv_int<T: RadixSortable + Debug>(strat: Strat, bits: u32, c: &AdvCase, conv: impl Fn(u64) -> T) -> Outcome {
-    let keys = c.keys.expand(bits);
-    let input: Vec<T> = keys.iter().map(|&k| conv(k)).collect();
-    let mut data = input.clone();
-    let path = adv_path(strat, &c.cfg, input.len());
-    let mut sorter = match AdvancedRadixSort::<T>::with_config(adv_config(strat, &c.cfg)) {
-        Ok(s) => s,
-        Err(e) => return Outcome::skip(&format!("with_config Err: {}", zverif::core::truncate(&e.to_string(), 60))),
-    };
-    match sorter.sort(&mut data) {
-        Err(e) => {
-            if data != input {
-                return enumr::fail("sort_err", format!("err_and_modified/{path}"), format!("sort returned Err({e}) and changed the data: {}", brief_vec(&data)));
-            }
-            enumr::fail("sort_err", path, format!("sort returned Err({e}) on valid input {}", brief_vec(&input)))
-        }
-        Ok(()) => match judge_sorted(&input, &data) {
-            Some((sym, d)) => enumr::fail("sorted_permutation", format!("{sym}/{path}/{}", key_class(&keys)), d),
-            None if input.len() < 2 => Outcome::trivial(&path),
-            None => Outcome::pass(&path),
-        },
     }
 }
 
@@ -699,47 +702,1077 @@ fn key8(s: &[u8]) -> u64 {
     k
 }
 
-fn run_adv_str(strat: Strat, c: &AdvStrCase) -> Outcome {
-    let owned = c.strs.expand();
-    let input: Vec<RadixString> = owned.iter().map(|s| RadixString::new(s)).collect();
+/// Run one AdvancedRadixSort and judge it.  `tie` = two *different* input items have the same `extract_key`
+/// (only possible for strings); `show` renders items for the detail text.
+fn adv_sort_and_judge<T: RadixSortable + Debug>(strat: Strat, cfg: &AdvCfg, input: Vec<T>, tie: bool, show: &dyn Fn(&[T]) -> String) -> Outcome {
+    let keys: Vec<u64> = input.iter().map(|x| x.extract_key()).collect();
+    let (coarse, path) = adv_path(strat, cfg, &keys);
+    let kc = key_class(&keys);
     let mut data = input.clone();
-    let path = adv_path(strat, &c.cfg, input.len());
-    let mut sorter = match AdvancedRadixSort::<RadixString>::with_config(adv_config(strat, &c.cfg)) {
+    let mut sorter = match AdvancedRadixSort::<T>::with_config(adv_config(strat, cfg)) {
         Ok(s) => s,
         Err(e) => return Outcome::skip(&format!("with_config Err: {}", zverif::core::truncate(&e.to_string(), 60))),
     };
-    let as_bytes = |v: &[RadixString]| v.iter().map(|s| s.as_slice().to_vec()).collect::<Vec<Vec<u8>>>();
-    match sorter.sort(&mut data) {
-        Err(e) => enumr::fail("sort_err", path, format!("sort returned Err({e}) on valid input {}", brief_strs(&owned))),
-        Ok(()) => {
-            let out = as_bytes(&data);
-            match judge_sorted(&owned, &out) {
-                Some((sym, _)) => {
-                    let mut exp = owned.clone();
-                    exp.sort();
-                    // observable facts for the class: is the output at least ordered by the 8-byte zero-padded key
-                    // (`RadixString::extract_key`), and do two different input strings share that key?
-                    let by_key = out.windows(2).all(|w| key8(&w[0]) <= key8(&w[1]));
-                    let mut d = owned.clone();
-                    d.sort();
-                    d.dedup();
-                    let key_tie = d.windows(2).any(|w| key8(&w[0]) == key8(&w[1]));
-                    enumr::fail(
-                        "sorted_permutation",
-                        format!("{sym}/{}/{}", if by_key { "ordered_by_key8" } else { "unordered_by_key8" }, if key_tie { "key8_tie" } else { "key8_distinct" }),
-                        format!("path {path}: input {} -> got {}, expected {}", brief_strs(&owned), brief_strs(&out), brief_strs(&exp)),
-                    )
-                }
-                None if owned.len() < 2 => Outcome::trivial(&path),
-                None => Outcome::pass(&path),
+    // panics are caught here (not by the engine) so that the class can carry the path and key class: a panic in a
+    // rayon worker has no recorded location on this thread
+    let res = match zverif::util::catch(|| sorter.sort(&mut data)) {
+        Ok(r) => r,
+        Err(p) => {
+            return enumr::fail(
+                "sorted_permutation",
+                format!("{coarse}/{kc}"),
+                format!("path {path}: PANIC ({}) on input {}", if p.class.is_empty() { "in a rayon worker".to_string() } else { p.detail.clone() }, show(&input)),
+            )
+        }
+    };
+    match res {
+        Err(e) => {
+            let modified = data.iter().map(|x| x.extract_key()).collect::<Vec<u64>>() != keys;
+            enumr::fail(
+                "sort_err",
+                format!("{coarse}{}", if modified { "/data_modified" } else { "" }),
+                format!("sort returned Err({e}) on valid input {}", show(&input)),
+            )
+        }
+        Ok(()) => match judge_sorted(&input, &data) {
+            Some((sym, _)) => {
+                let mut exp = input.clone();
+                exp.sort();
+                // observable facts for the class: the output is ordered by `extract_key` and only items with equal keys
+                // are out of order ("key_tie": the sort compares 8-byte zero-padded prefixes, not the items) -- or not
+                let by_key = data.windows(2).all(|w| w[0].extract_key() <= w[1].extract_key());
+                let class = if tie && by_key && sym == "not_sorted" { "key8_tie_misordered".to_string() } else { format!("{coarse}/{kc}") };
+                enumr::fail("sorted_permutation", class, format!("path {path}: {sym}: input {} -> got {}, expected {}", show(&input), show(&data), show(&exp)))
             }
+            None if input.len() < 2 => Outcome::trivial(&path),
+            None => Outcome::pass(&path),
+        },
+    }
+}
+
+fn run_adv(strat: Strat, c: &AdvCase) -> Outcome {
+    match &c.input {
+        AdvInput::U32(k) => {
+            let input: Vec<u32> = k.expand(32).iter().map(|&v| v as u32).collect();
+            adv_sort_and_judge(strat, &c.cfg, input, false, &|v| brief_vec(v))
+        }
+        AdvInput::U64(k) => adv_sort_and_judge(strat, &c.cfg, k.expand(64), false, &|v| brief_vec(v)),
+        AdvInput::Str(s) => {
+            let owned = s.expand();
+            let input: Vec<RadixString> = owned.iter().map(|s| RadixString::new(s)).collect();
+            let mut d = owned.clone();
+            d.sort();
+            d.dedup();
+            let tie = d.windows(2).any(|w| key8(&w[0]) == key8(&w[1]));
+            adv_sort_and_judge(strat, &c.cfg, input, tie, &|v| brief_strs(&v.iter().map(|s| s.as_slice().to_vec()).collect::<Vec<_>>()))
         }
     }
 }
 
-//@@NEXT@@
+fn adv_gen(strat: Strat) -> impl Fn(Tier, &mut dyn FnMut(AdvCase) -> bool) -> bool {
+    move |tier, f| {
+        for cfg in adv_cfgs(strat) {
+            let max_n = if cfg.bits == 16 && cfg.par > 0 { 257 } else { 1000 };
+            if !int_inputs(tier, 32, u64::MAX, max_n, &mut |k| f(AdvCase { input: AdvInput::U32(k), cfg })) {
+                return false;
+            }
+            if !int_inputs(tier, 64, u64::MAX, max_n, &mut |k| f(AdvCase { input: AdvInput::U64(k), cfg })) {
+                return false;
+            }
+            // the LSD grid is about integer digits; for strings keep radix_bits 8 and 16 only
+            if matches!(strat, Strat::Forced(SortingStrategy::LsdRadix)) && !(cfg.bits == 8 || cfg.bits == 16) {
+                continue;
+            }
+            if !str_inputs(tier, &mut |s| f(AdvCase { input: AdvInput::Str(s), cfg })) {
+                return false;
+            }
+        }
+        true
+    }
+}
+
+// ------------------------------------------------------------------------------------------------
+// CacheObliviousSort: every strategy / cache path, selected through the cache hierarchy in the config
+
+#[derive(Clone, Copy, Debug, PartialEq, Eq, Hash, Serialize, Deserialize)]
+enum CoPath {
+    /// strategy CacheAware, l1_optimized_sort (insertion / "simd" insertion)
+    L1,
+    /// strategy CacheAware with 16-byte items: l2_optimized_sort (quicksort above 16 items)
+    L2,
+    /// strategy CacheAware with 16-byte items: l3_optimized_sort (merge sort above 32 items)
+    L3,
+    /// strategy CacheOblivious: funnel sort of width k above small_threshold
+    Funnel,
+    /// strategy Hybrid with a large L2: cache_aware_sort -> l2_optimized_sort
+    HybridAware,
+    /// strategy Hybrid with a 64-byte L2: cache_oblivious_sort
+    HybridFunnel,
+    /// `cache_oblivious_sort` called directly (it is `pub`)
+    DirectFunnel,
+    /// CacheObliviousConfig::default() (detected hierarchy)
+    Default,
+}
+
+#[derive(Clone, Debug, Hash, Serialize, Deserialize)]
+struct CoCase {
+    keys: Keys,
+    path: CoPath,
+    /// funnel width: l2_size = 64*k*k, l2_line_size = 64
+    k: u8,
+    small_thr: u32,
+    simd: bool,
+}
+
+/// Replica of the recursion *shape* of `funnel_sort_recursive` (sizes and widths only): true iff some node has
+/// width 1 and more than `thr` items, where the real code recurses on the same slice forever (stack overflow).
+fn funnel_overflows(n: usize, k: usize, thr: usize) -> bool {
+    if n <= thr {
+        return false;
+    }
+    if k <= 1 {
+        return true;
+    }
+    let sq = (k as f64).sqrt() as usize;
+    let chunk = n / k;
+    let last = n - (k - 1) * chunk;
+    (chunk > 0 && funnel_overflows(chunk, sq, thr)) || funnel_overflows(last, sq, thr)
+}
+
+fn funnel_width(l2_size: usize, line: usize, n: usize) -> usize {
+    let k = ((l2_size / line) as f64).sqrt() as usize;
+    k.max(2).min(n.min(64))
+}
+
+fn co_config(c: &CoCase, n: usize, item: usize) -> CacheObliviousConfig {
+    let big = usize::MAX / 4;
+    let kk = 64 * (c.k as usize) * (c.k as usize);
+    let mut h = CacheHierarchy::default();
+    h.l1_line_size = 64;
+    h.l2_line_size = 64;
+    h.l3_line_size = 64;
+    let (l1, l2, l3) = match c.path {
+        CoPath::L1 => (big, big, big),
+        CoPath::L2 => (8 * n, big, big),
+        CoPath::L3 => (8 * n, 0, big),
+        CoPath::Funnel | CoPath::DirectFunnel => (0, kk, big),
+        CoPath::HybridAware => (0, big, 0),
+        CoPath::HybridFunnel => (0, 64, 0),
+        CoPath::Default => (0, 0, 0),
+    };
+    let _ = item;
+    h.l1_size = l1;
+    h.l2_size = l2;
+    h.l3_size = l3;
+    let mut cfg = CacheObliviousConfig::default();
+    if c.path != CoPath::Default {
+        cfg.cache_hierarchy = h;
+        cfg.small_threshold = c.small_thr as usize;
+    }
+    cfg.use_simd = c.simd;
+    cfg.memory_pool = None;
+    cfg
+}
+
+fn run_co_typed<T: Ord + Clone + Debug>(c: &CoCase, input: Vec<T>, keys: &[u64]) -> Outcome {
+    let n = input.len();
+    let cfg = co_config(c, n, std::mem::size_of::<T>());
+    // does this case enter the funnel recursion, and would it recurse forever?
+    let h = &cfg.cache_hierarchy;
+    let bytes8 = n * 8;
+    let item_bytes = n * std::mem::size_of::<T>();
+    let funnel = match c.path {
+        CoPath::DirectFunnel => true,
+        _ => {
+            if n == 0 || bytes8 <= h.l1_size {
+                false
+            } else if bytes8 <= h.l3_size {
+                true
+            } else {
+                item_bytes > h.l2_size
+            }
+        }
+    };
+    let thr = cfg.small_threshold;
+    if funnel && n > thr {
+        let k0 = funnel_width(h.l2_size, h.l2_line_size, n);
+        if funnel_overflows(n, k0, thr) {
+            return Outcome::skip("left out: funnel recursion reaches width 1 above small_threshold (unbounded recursion, see notes)");
+        }
+    }
+    let label = format!("{:?}{}", c.path, if funnel && n > thr { "/funnel" } else if funnel { "/funnel-small" } else { "" });
+    let mut data = input.clone();
+    let mut sorter = CacheObliviousSort::with_config(cfg);
+    let r = if c.path == CoPath::DirectFunnel { sorter.cache_oblivious_sort(&mut data) } else { sorter.sort(&mut data) };
+    match r {
+        Err(e) => enumr::fail("sort_err", label, format!("sort returned Err({e}) on {}", brief_vec(&input))),
+        Ok(()) => match judge_sorted(&input, &data) {
+            Some((sym, d)) => enumr::fail("sorted_permutation", format!("{sym}/{label}/{}", len_class(keys.len())), d),
+            None if n < 2 => Outcome::trivial(&label),
+            None => Outcome::pass(&label),
+        },
+    }
+}
+
+fn run_co(c: &CoCase) -> Outcome {
+    let keys = c.keys.expand(64);
+    match c.path {
+        CoPath::L2 | CoPath::L3 => run_co_typed::<u128>(c, keys.iter().map(|&k| k as u128).collect(), &keys),
+        _ => run_co_typed::<u64>(c, keys.clone(), &keys),
+    }
+}
+
+fn co_gen(path: CoPath) -> impl Fn(Tier, &mut dyn FnMut(CoCase) -> bool) -> bool {
+    move |tier, f| {
+        let mut cfgs: Vec<(u8, u32, bool)> = Vec::new();
+        match path {
+            CoPath::Funnel | CoPath::DirectFunnel => {
+                for k in [2u8, 3, 4, 9, 16, 64] {
+                    for thr in [1u32, 2, 4, 16, 1024] {
+                        cfgs.push((k, thr, true));
+                    }
+                }
+            }
+            CoPath::HybridFunnel => {
+                for thr in [1u32, 2, 4, 16] {
+                    cfgs.push((2, thr, true));
+                }
+            }
+            CoPath::L1 => {
+                cfgs.push((2, 1024, true));
+                cfgs.push((2, 1024, false));
+            }
+            _ => cfgs.push((2, 1024, true)),
+        }
+        for (k, small_thr, simd) in cfgs {
+            if !int_inputs(tier, 64, u64::MAX, 1000, &mut |keys| f(CoCase { keys, path, k, small_thr, simd })) {
+                return false;
+            }
+            // the default configuration switches strategy at the real L1 size: add lengths beyond it
+            if path == CoPath::Default {
+                for n in [4095u32, 4096, 4097, 8193] {
+                    for &shape in ALL_KSHAPES {
+                        if !f(CoCase { keys: Keys::Grid { shape, n }, path, k, small_thr, simd }) {
+                            return false;
+                        }
+                    }
+                }
+            }
+        }
+        true
+    }
+}
+
+// ------------------------------------------------------------------------------------------------
+// ReplaceSelectSort / ExternalSort for Vec<T>
+
+#[derive(Clone, Debug, Hash, Serialize, Deserialize)]
+struct ExtCase {
+    keys: Keys,
+    /// 32 = u32 items, 64 = u64 items
+    item_bits: u8,
+    /// memory_buffer_size = mem_items * size_of::<T>()  (0 => size_of::<T>() - 1 bytes: less than one item)
+    mem_items: u8,
+    /// merge_ways
+    ways: u8,
+    secure: bool,
+    /// false: ReplaceSelectSort::sort; true: <Vec<T> as ExternalSort>::external_sort_with_config
+    via_trait: bool,
+}
+
+fn ext_tmp_dir() -> std::path::PathBuf {
+    let base = zverif::util::scratch_root();
+    base.join(format!("c11-ext-{}", std::process::id()))
+}
+
+fn run_ext_typed<T>(c: &ExtCase, input: Vec<T>) -> Outcome
+where
+    T: Ord + Clone + Debug + serde::Serialize + DeserializeOwned + 'static,
+{
+    let dir = ext_tmp_dir();
+    if std::fs::create_dir_all(&dir).is_err() {
+        return Outcome::skip("cannot create temp dir");
+    }
+    let sz = std::mem::size_of::<T>();
+    let cfg = ReplaceSelectSortConfig {
+        memory_buffer_size: if c.mem_items == 0 { sz - 1 } else { c.mem_items as usize * sz },
+        temp_dir: dir.clone(),
+        use_secure_memory: c.secure,
+        compress_temp_files: false,
+        merge_ways: c.ways as usize,
+        cleanup_temp_files: true,
+    };
+    let label = format!("mem{}", c.mem_items);
+    let res: Result<Vec<T>, String> = if c.via_trait {
+        let mut v = input.clone();
+        v.external_sort_with_config(cfg).map(|_| v).map_err(|e| e.to_string())
+    } else {
+        let mut sorter = ReplaceSelectSort::<T>::new(cfg);
+        let r = sorter.sort(input.clone()).map_err(|e| e.to_string());
+        drop(sorter);
+        r
+    };
+    let _ = std::fs::remove_dir_all(&dir);
+    match res {
+        Err(e) => enumr::fail("sort_err", label, format!("external sort returned Err({e}) on {}", brief_vec(&input))),
+        Ok(out) => match judge_sorted(&input, &out) {
+            Some((sym, d)) => enumr::fail("sorted_permutation", format!("{sym}/{label}"), d),
+            None if input.len() < 2 => Outcome::trivial(&label),
+            None => Outcome::pass(&format!("{label}/{}", if input.len() > c.mem_items as usize { "spilled" } else { "in-memory" })),
+        },
+    }
+}
+
+fn run_ext(c: &ExtCase) -> Outcome {
+    if c.item_bits == 32 {
+        run_ext_typed::<u32>(c, c.keys.expand(32).iter().map(|&k| k as u32).collect())
+    } else {
+        run_ext_typed::<u64>(c, c.keys.expand(64))
+    }
+}
+
+fn ext_gen(tier: Tier, f: &mut dyn FnMut(ExtCase) -> bool) -> bool {
+    for via_trait in [false, true] {
+        for item_bits in [64u8, 32] {
+            for mem_items in [0u8, 1, 2, 3] {
+                for ways in [2u8, 3, 16] {
+                    for secure in [false, true] {
+                        // the secure pool only changes the loser tree's allocation: one fan-in is enough for it
+                        if secure && !(ways == 2 && mem_items == 2) {
+                            continue;
+                        }
+                        if via_trait && (ways != 2 || item_bits != 64) {
+                            continue;
+                        }
+                        if !int_inputs(tier, item_bits as u32, u64::MAX, 257, &mut |keys| f(ExtCase { keys, item_bits, mem_items, ways, secure, via_trait })) {
+                            return false;
+                        }
+                    }
+                }
+            }
+        }
+    }
+    true
+}
+
+// ------------------------------------------------------------------------------------------------
+// merges of sorted runs
+
+/// all sorted runs (multisets) of length <= max_len over {0..alpha-1}, shortest first
+fn sorted_runs(alpha: u8, max_len: usize) -> Vec<Vec<u8>> {
+    let a: Vec<u8> = (0..alpha).collect();
+    let mut v = Vec::new();
+    all_strings(&a, max_len, &mut |s| {
+        if s.windows(2).all(|w| w[0] <= w[1]) {
+            v.push(s.to_vec());
+        }
+        true
+    });
+    v
+}
+
+/// all tuples of <= max_runs runs drawn from `runs`
+fn run_tuples(runs: &[Vec<u8>], max_runs: usize, f: &mut dyn FnMut(Vec<Vec<u8>>) -> bool) -> bool {
+    all_strings(runs, max_runs, &mut |t| f(t.to_vec()))
+}
+
+#[derive(Clone, Debug, Hash, Serialize, Deserialize)]
+struct MergeCase {
+    runs: Vec<Vec<u8>>,
+    /// subject-specific configuration code (documented per subject)
+    cfg: u8,
+}
+
+fn merge_expected(runs: &[Vec<u8>]) -> Vec<i32> {
+    let mut v: Vec<i32> = runs.iter().flatten().map(|&x| x as i32).collect();
+    v.sort();
+    v
+}
+
+fn merge_class(runs: &[Vec<u8>]) -> String {
+    let empty = runs.iter().filter(|r| r.is_empty()).count();
+    format!("ways{}{}", runs.len().min(9), if empty > 0 { "+empty-run" } else { "" })
+}
+
+fn judge_merge(runs: &[Vec<u8>], got: &[i32], extra: &str) -> Outcome {
+    let exp = merge_expected(runs);
+    let cls = merge_class(runs);
+    if got == &exp[..] {
+        if exp.is_empty() {
+            Outcome::trivial(&format!("{cls}{extra}"))
+        } else {
+            Outcome::pass(&format!("{cls}{extra}"))
+        }
+    } else {
+        let mut g = got.to_vec();
+        g.sort();
+        let sym = if g != exp { "elements_lost_or_added" } else { "not_sorted" };
+        enumr::fail("merge_union", format!("{sym}/{cls}{extra}"), format!("runs {:?} -> got {}, expected {}", runs, brief_vec(got), brief_vec(&exp)))
+    }
+}
+
+const MERGE_SPACE: &str = "all tuples of <= 4 sorted runs of length <= 3 over {0,1,2} (20 runs incl. the empty one: 168421 tuples)";
+
+fn merge_gen(cfgs: &'static [u8], max_runs_q: usize, max_runs_t: usize) -> impl Fn(Tier, &mut dyn FnMut(MergeCase) -> bool) -> bool {
+    move |tier, f| {
+        let runs = sorted_runs(3, 3);
+        for &cfg in cfgs {
+            if !run_tuples(&runs, tier.pick(max_runs_q, max_runs_t), &mut |t| f(MergeCase { runs: t, cfg })) {
+                return false;
+            }
+        }
+        true
+    }
+}
+
+/// padding runs that lift a tuple of <= 4 runs above MultiWayMerge's "more than 8 sources" tournament condition
+const PAD_RUNS: &[&[u8]] = &[&[], &[0], &[1, 1], &[2], &[0, 1, 2]];
+
+/// cfg: bit0 = use_tournament_tree, bit1 = max_merge_ways 2 (hierarchical path), bit2 = append the 5 PAD_RUNS
+fn run_multiway(c: &MergeCase) -> Outcome {
+    let mut runs = c.runs.clone();
+    if c.cfg & 4 != 0 {
+        runs.extend(PAD_RUNS.iter().map(|r| r.to_vec()));
+    }
+    let cfg = MultiWayMergeConfig {
+        use_tournament_tree: c.cfg & 1 != 0,
+        max_merge_ways: if c.cfg & 2 != 0 { 2 } else { 1024 },
+        ..MultiWayMergeConfig::default()
+    };
+    let sources: Vec<VectorSource<i32>> = runs.iter().map(|r| VectorSource::new(r.iter().map(|&x| x as i32).collect())).collect();
+    let mode = if runs.len() <= 1 {
+        "/direct"
+    } else if runs.len() > cfg.max_merge_ways {
+        "/hierarchical"
+    } else if cfg.use_tournament_tree && runs.len() > 8 {
+        "/tournament"
+    } else {
+        "/heap"
+    };
+    let mut m = MultiWayMerge::with_config(cfg);
+    match m.merge(sources) {
+        Err(e) => enumr::fail("merge_err", format!("{}{mode}", merge_class(&runs)), format!("merge returned Err({e}) on {:?}", runs)),
+        Ok(out) => judge_merge(&runs, &out, mode),
+    }
+}
+
+/// nine runs of length <= 1 over {0,1,2}: 4^9 tuples, all in tournament mode
+fn nine_gen(tier: Tier, f: &mut dyn FnMut(MergeCase) -> bool) -> bool {
+    let runs = sorted_runs(3, 1);
+    let n = tier.pick(0, 9);
+    if n == 0 {
+        return true;
+    }
+    let mut idx = vec![0usize; n];
+    loop {
+        let t: Vec<Vec<u8>> = idx.iter().map(|&i| runs[i].clone()).collect();
+        if !f(MergeCase { runs: t, cfg: 1 }) {
+            return false;
+        }
+        let mut p = n;
+        loop {
+            if p == 0 {
+                return true;
+            }
+            p -= 1;
+            idx[p] += 1;
+            if idx[p] < runs.len() {
+                break;
+            }
+            idx[p] = 0;
+        }
+    }
+}
+
+/// cfg: 0 = MergeOperations::merge_two, 1 = MergeOperations::merge_in_place(a ++ b, mid = |a|)
+fn run_merge_ops(c: &MergeCase) -> Outcome {
+    if c.runs.len() != 2 {
+        return Outcome::skip("two runs only");
+    }
+    let a: Vec<i32> = c.runs[0].iter().map(|&x| x as i32).collect();
+    let b: Vec<i32> = c.runs[1].iter().map(|&x| x as i32).collect();
+    let out = if c.cfg == 0 {
+        MergeOperations::merge_two(a, b)
+    } else {
+        let mid = a.len();
+        let mut d = a;
+        d.extend(b);
+        MergeOperations::merge_in_place(&mut d, mid);
+        d
+    };
+    judge_merge(&c.runs, &out, if c.cfg == 0 { "/merge_two" } else { "/merge_in_place" })
+}
+
+fn pair_gen(cfgs: &'static [u8]) -> impl Fn(Tier, &mut dyn FnMut(MergeCase) -> bool) -> bool {
+    move |tier, f| {
+        let runs = sorted_runs(3, tier.pick(4, 6));
+        for &cfg in cfgs {
+            for a in &runs {
+                for b in &runs {
+                    if !f(MergeCase { runs: vec![a.clone(), b.clone()], cfg }) {
+                        return false;
+                    }
+                }
+            }
+        }
+        true
+    }
+}
+
+/// cfg: bit0 = stable_sort, bit1 = cache_optimized, bit2 = use_secure_memory, bit3 = drive through initialize()+peek()/pop()
+/// (Iterator interface) instead of merge_to_vec()
+fn run_loser_tree(c: &MergeCase) -> Outcome {
+    let cfg = LoserTreeConfig {
+        stable_sort: c.cfg & 1 != 0,
+        cache_optimized: c.cfg & 2 != 0,
+        use_secure_memory: c.cfg & 4 != 0,
+        initial_capacity: 2,
+        ..LoserTreeConfig::default()
+    };
+    let mut tree = EnhancedLoserTree::<i32>::new(cfg);
+    for r in &c.runs {
+        let v: Vec<i32> = r.iter().map(|&x| x as i32).collect();
+        if let Err(e) = tree.add_way(v.into_iter()) {
+            return enumr::fail("merge_err", "add_way", format!("add_way Err({e})"));
+        }
+    }
+    let iter_mode = c.cfg & 8 != 0;
+    let out: Result<Vec<i32>, String> = if iter_mode {
+        match tree.initialize() {
+            Err(e) => Err(e.to_string()),
+            Ok(()) => {
+                let mut v = Vec::new();
+                loop {
+                    let p = tree.peek().copied();
+                    let x = tree.next();
+                    if p != x {
+                        return enumr::fail("merge_union", "peek_ne_pop", format!("runs {:?}: peek() = {:?} but pop() = {:?} after {:?}", c.runs, p, x, v));
+                    }
+                    match x {
+                        Some(x) => v.push(x),
+                        None => break,
+                    }
+                }
+                Ok(v)
+            }
+        }
+    } else {
+        tree.merge_to_vec().map_err(|e| e.to_string())
+    };
+    match out {
+        Err(e) => {
+            if c.runs.is_empty() {
+                // `initialize` refuses an empty set of ways with an explicit error: a refusal, not a wrong merge
+                Outcome::skip("zero ways refused (explicit Err)")
+            } else {
+                enumr::fail("merge_err", merge_class(&c.runs), format!("merge returned Err({e}) on {:?}", c.runs))
+            }
+        }
+        Ok(v) => judge_merge(&c.runs, &v, if iter_mode { "/iter" } else { "/merge_to_vec" }),
+    }
+}
+
+fn loser_gen(tier: Tier, f: &mut dyn FnMut(MergeCase) -> bool) -> bool {
+    let runs = sorted_runs(3, 3);
+    for cfg in [3u8, 0, 1, 2, 11, 8] {
+        if !run_tuples(&runs, 4, &mut |t| f(MergeCase { runs: t, cfg })) {
+            return false;
+        }
+    }
+    // five ways: runs of length <= 1 (quick) / <= 2 (thorough)
+    let short = sorted_runs(3, tier.pick(1, 2));
+    for cfg in [3u8, 11] {
+        if !all_strings(&short, 5, &mut |t| if t.len() == 5 { f(MergeCase { runs: t.to_vec(), cfg }) } else { true }) {
+            return false;
+        }
+    }
+    // secure memory pool (one pool per tree): up to two ways
+    run_tuples(&runs, 2, &mut |t| f(MergeCase { runs: t, cfg: 7 }))
+}
+
+// ------------------------------------------------------------------------------------------------
+// SIMD merge
+
+#[derive(Clone, Debug, Hash, Serialize, Deserialize)]
+enum I32Run {
+    /// explicit sorted values
+    Seq(Vec<i32>),
+    /// n values start, start+step, ...
+    Arith { start: i32, step: i32, n: u32 },
+}
+
+impl I32Run {
+    fn expand(&self) -> Vec<i32> {
+        match self {
+            I32Run::Seq(v) => v.clone(),
+            I32Run::Arith { start, step, n } => (0..*n as i32).map(|i| start + step * i).collect(),
+        }
+    }
+}
+
+#[derive(Clone, Debug, Hash, Serialize, Deserialize)]
+struct SimdCase {
+    left: I32Run,
+    right: I32Run,
+    /// SimdConfig::min_vector_size (SIMD path when |l|+|r| >= 2*min_vec)
+    min_vec: u8,
+    avx2: bool,
+}
+
+fn simd_gen(tier: Tier, f: &mut dyn FnMut(SimdCase) -> bool) -> bool {
+    let alpha = [i32::MIN, -1, 0, 2, i32::MAX];
+    let mut runs: Vec<Vec<i32>> = Vec::new();
+    all_strings(&alpha, tier.pick(3, 4), &mut |s| {
+        if s.windows(2).all(|w| w[0] <= w[1]) {
+            runs.push(s.to_vec());
+        }
+        true
+    });
+    for (min_vec, avx2) in [(1u8, true), (8, true), (1, false)] {
+        for a in &runs {
+            for b in &runs {
+                if !f(SimdCase { left: I32Run::Seq(a.clone()), right: I32Run::Seq(b.clone()), min_vec, avx2 }) {
+                    return false;
+                }
+            }
+        }
+        // G: lengths around the 8-lane copy loop x {interleaved, left entirely smaller, right entirely smaller, all equal}
+        let lens = [0u32, 1, 7, 8, 9, 15, 16, 17, 33, 100];
+        for &ln in &lens {
+            for &rn in &lens {
+                for (ls, lstep, rs, rstep) in [(0, 2, 1, 2), (-1000, 1, 1000, 1), (1000, 1, -1000, 1), (5, 0, 5, 0)] {
+                    let c = SimdCase {
+                        left: I32Run::Arith { start: ls, step: lstep, n: ln },
+                        right: I32Run::Arith { start: rs, step: rstep, n: rn },
+                        min_vec,
+                        avx2,
+                    };
+                    if !f(c) {
+                        return false;
+                    }
+                }
+            }
+        }
+    }
+    true
+}
+
+fn run_simd(c: &SimdCase) -> Outcome {
+    let l = c.left.expand();
+    let r = c.right.expand();
+    let cfg = SimdConfig { use_avx2: c.avx2, min_vector_size: c.min_vec as usize, ..SimdConfig::default() };
+    let cmp = SimdComparator::with_config(cfg);
+    let simd_path = c.avx2 && l.len() + r.len() >= 2 * c.min_vec as usize;
+    let got = cmp.merge_sorted_i32(&l, &r);
+    let mut exp = l.clone();
+    exp.extend(&r);
+    exp.sort();
+    let tail = l.len().max(r.len()) >= 8;
+    let cls = format!("{}{}", if simd_path { "simd" } else { "scalar" }, if tail { "/tail>=8" } else { "" });
+    if got == exp {
+        if exp.is_empty() {
+            Outcome::trivial(&cls)
+        } else {
+            Outcome::pass(&cls)
+        }
+    } else {
+        enumr::fail("merge_union", cls, format!("merge_sorted_i32({}, {}) = {}, expected {}", brief_vec(&l), brief_vec(&r), brief_vec(&got), brief_vec(&exp)))
+    }
+}
+
+fn run_simd_multi(c: &MergeCase) -> Outcome {
+    let arrays: Vec<Vec<i32>> = c.runs.iter().map(|r| r.iter().map(|&x| x as i32).collect()).collect();
+    let out = SimdOperations::merge_multiple_sorted(arrays);
+    judge_merge(&c.runs, &out, "/binary-tree")
+}
+
+// ------------------------------------------------------------------------------------------------
+// set_ops::* — two sorted sequences
+
+#[derive(Clone, Debug, Hash, Serialize, Deserialize)]
+struct PairCase {
+    a: Vec<u8>,
+    b: Vec<u8>,
+    /// size-ratio threshold of the `*_fast_*` variants (ignored by the others)
+    thr: u8,
+}
+
+#[derive(Clone, Copy, Debug, PartialEq, Eq)]
+enum SetFn {
+    Inter,
+    Inter1Small,
+    InterFast,
+    Inter2,
+    Inter2_1Small,
+    Inter2Fast,
+    Union,
+    Difference,
+    SetInter,
+    SetUnion,
+    SetDifference,
+    Unique,
+}
+
+const ALL_SETFNS: &[(SetFn, &str)] = &[
+    (SetFn::Inter, "multiset_intersection"),
+    (SetFn::Inter1Small, "multiset_1small_intersection"),
+    (SetFn::InterFast, "multiset_fast_intersection"),
+    (SetFn::Inter2, "multiset_intersection2"),
+    (SetFn::Inter2_1Small, "multiset_1small_intersection2"),
+    (SetFn::Inter2Fast, "multiset_fast_intersection2"),
+    (SetFn::Union, "multiset_union"),
+    (SetFn::Difference, "multiset_difference"),
+    (SetFn::SetInter, "set_intersection"),
+    (SetFn::SetUnion, "set_union"),
+    (SetFn::SetDifference, "set_difference"),
+    (SetFn::Unique, "set_unique"),
+];
+
+fn dedup(mut v: Vec<u8>) -> Vec<u8> {
+    v.dedup();
+    v
+}
+
+/// Definitional references (no two-pointer walk): the *documented* semantics of each function.
+///  * intersection  = the elements of `a` (with a's multiplicities) whose value occurs in `b`   ("copied from first sequence")
+///  * intersection2 = the elements of `b` (with b's multiplicities) whose value occurs in `a`   ("copied from second sequence")
+///  * union         = sorted concatenation ("including all duplicates from both")
+///  * difference    = for each value max(count_a - count_b, 0) copies (the std::set_difference multiset rule)
+///  * set_*         = the above with consecutive duplicates removed; set_unique = distinct values
+fn set_reference(fun: SetFn, a: &[u8], b: &[u8]) -> Vec<u8> {
+    let inter1 = || a.iter().copied().filter(|x| b.contains(x)).collect::<Vec<u8>>();
+    let inter2 = || b.iter().copied().filter(|y| a.contains(y)).collect::<Vec<u8>>();
+    let union = || {
+        let mut v = a.to_vec();
+        v.extend_from_slice(b);
+        v.sort();
+        v
+    };
+    let diff = || {
+        let mut out = Vec::new();
+        let mut vals = a.to_vec();
+        vals.dedup();
+        for v in vals {
+            let ca = a.iter().filter(|&&x| x == v).count();
+            let cb = b.iter().filter(|&&x| x == v).count();
+            for _ in cb..ca {
+                out.push(v);
+            }
+        }
+        out
+    };
+    match fun {
+        SetFn::Inter | SetFn::Inter1Small | SetFn::InterFast => inter1(),
+        SetFn::Inter2 | SetFn::Inter2_1Small | SetFn::Inter2Fast => inter2(),
+        SetFn::Union => union(),
+        SetFn::Difference => diff(),
+        SetFn::SetInter => dedup(inter1()),
+        SetFn::SetUnion => dedup(union()),
+        SetFn::SetDifference => dedup(diff()),
+        SetFn::Unique => dedup(a.to_vec()),
+    }
+}
+
+/// The textbook (std::set_*) multiset results, used only to label pass classes where zipora's documented
+/// semantics differ from them.
+fn textbook(fun: SetFn, a: &[u8], b: &[u8]) -> Vec<u8> {
+    let (mut i, mut j, mut out) = (0, 0, Vec::new());
+    match fun {
+        SetFn::Inter | SetFn::Inter1Small | SetFn::InterFast | SetFn::Inter2 | SetFn::Inter2_1Small | SetFn::Inter2Fast | SetFn::SetInter => {
+            while i < a.len() && j < b.len() {
+                match a[i].cmp(&b[j]) {
+                    Ordering::Less => i += 1,
+                    Ordering::Greater => j += 1,
+                    Ordering::Equal => {
+                        out.push(a[i]);
+                        i += 1;
+                        j += 1;
+                    }
+                }
+            }
+        }
+        SetFn::Union | SetFn::SetUnion => {
+            while i < a.len() && j < b.len() {
+                match a[i].cmp(&b[j]) {
+                    Ordering::Less => {
+                        out.push(a[i]);
+                        i += 1
+                    }
+                    Ordering::Greater => {
+                        out.push(b[j]);
+                        j += 1
+                    }
+                    Ordering::Equal => {
+                        out.push(a[i]);
+                        i += 1;
+                        j += 1;
+                    }
+                }
+            }
+            out.extend_from_slice(&a[i..]);
+            out.extend_from_slice(&b[j..]);
+        }
+        SetFn::Difference | SetFn::SetDifference => {
+            while i < a.len() && j < b.len() {
+                match a[i].cmp(&b[j]) {
+                    Ordering::Less => {
+                        out.push(a[i]);
+                        i += 1
+                    }
+                    Ordering::Greater => j += 1,
+                    Ordering::Equal => {
+                        i += 1;
+                        j += 1;
+                    }
+                }
+            }
+            out.extend_from_slice(&a[i..]);
+        }
+        SetFn::Unique => out = dedup(a.to_vec()),
+    }
+    if matches!(fun, SetFn::SetInter | SetFn::SetUnion | SetFn::SetDifference) {
+        out = dedup(out);
+    }
+    out
+}
+
+fn run_setfn(fun: SetFn, c: &PairCase) -> Outcome {
+    let cmp = |x: &u8, y: &u8| x.cmp(y);
+    let (a, b) = (&c.a[..], &c.b[..]);
+    let got: Vec<u8> = match fun {
+        SetFn::Inter => set_ops::multiset_intersection(a, b, cmp),
+        SetFn::Inter1Small => set_ops::multiset_1small_intersection(a, b, cmp),
+        SetFn::InterFast => set_ops::multiset_fast_intersection(a, b, cmp, c.thr as usize),
+        SetFn::Inter2 => set_ops::multiset_intersection2(a, b, cmp),
+        SetFn::Inter2_1Small => set_ops::multiset_1small_intersection2(a, b, cmp),
+        SetFn::Inter2Fast => set_ops::multiset_fast_intersection2(a, b, cmp, c.thr as usize),
+        SetFn::Union => set_ops::multiset_union(a, b, cmp),
+        SetFn::Difference => set_ops::multiset_difference(a, b, cmp),
+        SetFn::SetInter => set_ops::set_intersection(a, b, cmp),
+        SetFn::SetUnion => set_ops::set_union(a, b, cmp),
+        SetFn::SetDifference => set_ops::set_difference(a, b, cmp),
+        SetFn::Unique => {
+            let mut d = a.to_vec();
+            let n = if c.thr == 0 { set_ops::set_unique(&mut d, |x, y| x == y) } else { set_ops::set_unique_default(&mut d) };
+            if n > d.len() {
+                return enumr::fail("set_op_result", "unique_len_out_of_range", format!("set_unique({:?}) returned {n} > len {}", a, d.len()));
+            }
+            d.truncate(n);
+            d
+        }
+    };
+    let exp = set_reference(fun, a, b);
+    let has_dup = |v: &[u8]| v.windows(2).any(|w| w[0] == w[1]);
+    let dupc = if has_dup(a) || has_dup(b) { "dup_inputs" } else { "unique_inputs" };
+    if got != exp {
+        return enumr::fail("set_op_result", format!("wrong/{dupc}"), format!("a={:?} b={:?} thr={} -> got {:?}, expected {:?}", a, b, c.thr, got, exp));
+    }
+    let tb = textbook(fun, a, b);
+    let cls = format!("{dupc}/{}", if tb == exp { "equals_textbook" } else { "documented_semantics_differs_from_textbook" });
+    if a.is_empty() && b.is_empty() {
+        Outcome::trivial(&cls)
+    } else {
+        Outcome::pass(&cls)
+    }
+}
+
+fn setfn_gen(fun: SetFn) -> impl Fn(Tier, &mut dyn FnMut(PairCase) -> bool) -> bool {
+    move |tier, f| {
+        let runs = match tier {
+            Tier::Quick => sorted_runs(3, 4),
+            Tier::Thorough => sorted_runs(4, 5),
+        };
+        let thrs: &[u8] = match fun {
+            SetFn::InterFast | SetFn::Inter2Fast => &[0, 1, 2, 32],
+            SetFn::Unique => &[0, 1],
+            _ => &[0],
+        };
+        for &thr in thrs {
+            for a in &runs {
+                if fun == SetFn::Unique {
+                    if !f(PairCase { a: a.clone(), b: vec![], thr }) {
+                        return false;
+                    }
+                    continue;
+                }
+                for b in &runs {
+                    if !f(PairCase { a: a.clone(), b: b.clone(), thr }) {
+                        return false;
+                    }
+                }
+            }
+        }
+        // G: one long second sequence so that the *_fast_* variants switch to binary search at the default ratio 32
+        if matches!(fun, SetFn::InterFast | SetFn::Inter2Fast | SetFn::Inter1Small | SetFn::Inter2_1Small) {
+            let long: Vec<u8> = (0..100u32).map(|i| (i / 3) as u8).collect();
+            for a in &runs {
+                let a2: Vec<u8> = a.iter().map(|&x| x * 7).collect();
+                if a2.len() <= 3 && !f(PairCase { a: a2, b: long.clone(), thr: 32 }) {
+                    return false;
+                }
+            }
+        }
+        true
+    }
+}
+
+// ------------------------------------------------------------------------------------------------
+// SetOperations — k sorted sequences
+
+#[derive(Clone, Copy, Debug, PartialEq, Eq)]
+enum KOp {
+    /// cfg 0 = bit-mask path (default config), 1 = use_bit_mask_optimization false (general path),
+    /// 2 = bit_mask_threshold 1 (more than one way takes the general path)
+    Inter,
+    Union,
+    Frequencies,
+    FilterMerge,
+}
+
+fn run_kop(op: KOp, c: &MergeCase) -> Outcome {
+    let runs = &c.runs;
+    let its = || -> Vec<std::vec::IntoIter<u8>> { runs.iter().map(|r| r.clone().into_iter()).collect() };
+    let cfg = match (op, c.cfg) {
+        (KOp::Inter, 1) => SetOperationsConfig { use_bit_mask_optimization: false, ..SetOperationsConfig::default() },
+        (KOp::Inter, 2) => SetOperationsConfig { bit_mask_threshold: 1, ..SetOperationsConfig::default() },
+        _ => SetOperationsConfig::default(),
+    };
+    let general = op == KOp::Inter && (c.cfg == 1 || (c.cfg == 2 && runs.len() > 1));
+    let variant = if op != KOp::Inter {
+        ""
+    } else if general {
+        "/general-path"
+    } else {
+        "/bit-mask-path"
+    };
+    let mut so = SetOperations::with_config(cfg);
+    let has_dup = runs.iter().any(|r| r.windows(2).any(|w| w[0] == w[1]));
+    let dupc = if has_dup { "dup_inputs" } else { "unique_inputs" };
+    let cls = format!("{}/{dupc}{variant}", merge_class(runs));
+    let all: Vec<u8> = {
+        let mut v: Vec<u8> = runs.iter().flatten().copied().collect();
+        v.sort();
+        v
+    };
+    let refused = |e: String| {
+        if runs.is_empty() {
+            Outcome::skip("zero ways refused (explicit Err)")
+        } else {
+            enumr::fail("set_op_err", cls.clone(), format!("returned Err({e}) on {:?}", runs))
+        }
+    };
+    match op {
+        KOp::Inter => {
+            let got = match so.intersection(its()) {
+                Ok(v) => v,
+                Err(e) => return refused(e.to_string()),
+            };
+            // k-way two-pointer definition: value v appears min_i count_i(v) times
+            let mut exp = Vec::new();
+            if !runs.is_empty() {
+                for v in dedup(all.clone()) {
+                    let m = runs.iter().map(|r| r.iter().filter(|&&x| x == v).count()).min().unwrap_or(0);
+                    for _ in 0..m {
+                        exp.push(v);
+                    }
+                }
+            }
+            if got == exp {
+                return if all.is_empty() { Outcome::trivial(&cls) } else { Outcome::pass(&cls) };
+            }
+            // "wrong_values": wrong under any reading of the multiplicity (the set of distinct values differs)
+            let sym = if dedup(got.clone()) != dedup(exp.clone()) || got.windows(2).any(|w| w[0] > w[1]) { "wrong_values" } else { "multiplicity_only" };
+            enumr::fail("set_op_result", format!("{sym}/{dupc}{variant}"), format!("intersection of {:?} -> got {:?}, expected {:?}", runs, got, exp))
+        }
+        KOp::Union => match so.union(its()) {
+            Err(e) => refused(e.to_string()),
+            Ok(got) => {
+                let exp = dedup(all.clone());
+                if got == exp {
+                    if all.is_empty() {
+                        Outcome::trivial(&cls)
+                    } else {
+                        Outcome::pass(&cls)
+                    }
+                } else {
+                    enumr::fail("set_op_result", format!("wrong/{dupc}"), format!("union of {:?} -> got {:?}, expected {:?}", runs, got, exp))
+                }
+            }
+        },
+        KOp::Frequencies => match so.count_frequencies(its()) {
+            Err(e) => refused(e.to_string()),
+            Ok(got) => {
+                let mut g: Vec<(u8, usize)> = got.into_iter().collect();
+                g.sort();
+                let exp: Vec<(u8, usize)> = dedup(all.clone()).into_iter().map(|v| (v, all.iter().filter(|&&x| x == v).count())).collect();
+                if g == exp {
+                    if all.is_empty() {
+                        Outcome::trivial(&cls)
+                    } else {
+                        Outcome::pass(&cls)
+                    }
+                } else {
+                    enumr::fail("set_op_result", format!("wrong/{dupc}"), format!("count_frequencies of {:?} -> got {:?}, expected {:?}", runs, g, exp))
+                }
+            }
+        },
+        KOp::FilterMerge => match so.filter_merge(its(), |x| *x != 1) {
+            Err(e) => refused(e.to_string()),
+            Ok(got) => {
+                let exp: Vec<u8> = all.iter().copied().filter(|&x| x != 1).collect();
+                if got == exp {
+                    if all.is_empty() {
+                        Outcome::trivial(&cls)
+                    } else {
+                        Outcome::pass(&cls)
+                    }
+                } else {
+                    enumr::fail("merge_union", format!("wrong/{dupc}"), format!("filter_merge(x != 1) of {:?} -> got {:?}, expected {:?}", runs, got, exp))
+                }
+            }
+        },
+    }
+}
+
+
+/// Reproduce, outside the explorer, the case families that are left out because they kill the process:
+///   c11 --crash-witness funnel          small_threshold 1, funnel width 2, 4 items      -> stack overflow (SIGSEGV/abort)
+///   c11 --crash-witness funnel-default  CacheObliviousConfig::default(), 2^21 u64 items -> stack overflow
+///   c11 --crash-witness counting        RadixSort::new().sort_u32(&mut [u32::MAX])      -> 32 GiB of counters
+fn crash_witness(which: &str) {
+    match which {
+        "funnel" => {
+            let c = CoCase { keys: Keys::Seq(vec![3, 2, 1, 0]), path: CoPath::Funnel, k: 2, small_thr: 1, simd: true };
+            let mut data = c.keys.expand(64);
+            let mut sorter = CacheObliviousSort::with_config(co_config(&c, data.len(), 8));
+            eprintln!("sorting {:?} with small_threshold=1, l2_size=256, l2_line_size=64 ...", data);
+            let r = sorter.sort(&mut data);
+            eprintln!("returned {:?}: {:?}", r.is_ok(), data);
+        }
+        "funnel-default" => {
+            let n = 1usize << 21;
+            let mut data: Vec<u64> = (0..n as u64).rev().collect();
+            let mut sorter = CacheObliviousSort::new();
+            eprintln!("sorting {n} reversed u64 with CacheObliviousConfig::default() ...");
+            let r = sorter.sort(&mut data);
+            eprintln!("returned {:?}, sorted = {}", r.is_ok(), data.windows(2).all(|w| w[0] <= w[1]));
+        }
+        "counting" => {
+            let mut data = vec![u32::MAX];
+            let t = std::time::Instant::now();
+            let r = RadixSort::new().sort_u32(&mut data);
+            eprintln!("sort_u32([u32::MAX]) returned {:?} after {:?}", r.is_ok(), t.elapsed());
+        }
+        _ => eprintln!("unknown witness {which}"),
+    }
+}
 
 fn main() {
+    let argv: Vec<String> = std::env::args().collect();
+    if let Some(i) = argv.iter().position(|a| a == "--crash-witness") {
+        crash_witness(argv.get(i + 1).map(|s| s.as_str()).unwrap_or(""));
+        return;
+    }
     // deterministic chunking in the parallel paths (chunk = ceil(n / workers)) and fewer threads per shard
     if std::env::var_os("RAYON_NUM_THREADS").is_none() {
         std::env::set_var("RAYON_NUM_THREADS", "4");
@@ -749,59 +1782,56 @@ fn main() {
         add(reg, "RadixSort::sort_u64", &format!("{INT_SPACE} x radix_bits {{1,4,8,11,16}} x parallel {{off, threshold 1,4,16}}"), radix_gen(true), run_radix_u64);
         add(reg, "RadixSort::sort_bytes", STR_SPACE, |t, f| str_inputs(t, f), run_sort_bytes);
 
-        add(reg, "KeyValueRadixSort<u32,u32>::sort_by_key", &format!("{INT_SPACE}; value = original index; default config (the type offers no other); thorough adds n=20001 (parallel split)"), kv_gen(32), |k: &Keys| run_kv(k, 32, |v| v as u32));
-        add(reg, "KeyValueRadixSort<u64,u32>::sort_by_key", &format!("{INT_SPACE}; value = original index; default config; thorough adds n=20001"), kv_gen(64), |k: &Keys| run_kv(k, 64, |v| v));
+        add(reg, "KeyValueRadixSort::sort_by_key", &format!("key types u32 and u64 x {INT_SPACE}; value = original index; default config (the type offers no other); thorough adds n=20001 (parallel split)"), kv_gen, run_kv_case);
 
-        for &strat in ALL_STRATS {
-            let cfg_text = "x config grid: LsdRadix: radix_bits {1,4,8,11,16} x parallel {off,1,4,16} x simd on/off (+ num_threads 3, secure pool); MsdRadix: insertion threshold {0,2,100}; auto: insertion threshold {0,2,100} x parallel {off,4} x simd; others: secure pool on/off";
+        // LsdRadix first: known findings with subject "AdvancedRadixSort[*" are replayed on the first registered match
+        let mut strats = vec![Strat::Forced(SortingStrategy::LsdRadix)];
+        strats.extend(ALL_STRATS.iter().copied().filter(|s| *s != Strat::Forced(SortingStrategy::LsdRadix)));
+        for strat in strats {
             add(
                 reg,
-                &format!("AdvancedRadixSort<u32>[{}]", strat.label()),
-                &format!("{INT_SPACE} {cfg_text}"),
-                move |tier, f: &mut dyn FnMut(AdvCase) -> bool| {
-                    for cfg in adv_cfgs(strat) {
-                        let max_n = if cfg.bits == 16 && cfg.par > 0 { 257 } else { 1000 };
-                        if !int_inputs(tier, 32, u64::MAX, max_n, &mut |keys| f(AdvCase { keys, cfg })) {
-                            return false;
-                        }
-                    }
-                    true
-                },
-                move |c: &AdvCase| run_adv_int(strat, 32, c, |v| v as u32),
-            );
-            add(
-                reg,
-                &format!("AdvancedRadixSort<u64>[{}]", strat.label()),
-                &format!("{INT_SPACE} {cfg_text}"),
-                move |tier, f: &mut dyn FnMut(AdvCase) -> bool| {
-                    for cfg in adv_cfgs(strat) {
-                        let max_n = if cfg.bits == 16 && cfg.par > 0 { 257 } else { 1000 };
-                        if !int_inputs(tier, 64, u64::MAX, max_n, &mut |keys| f(AdvCase { keys, cfg })) {
-                            return false;
-                        }
-                    }
-                    true
-                },
-                move |c: &AdvCase| run_adv_int(strat, 64, c, |v| v),
-            );
-            add(
-                reg,
-                &format!("AdvancedRadixSort<RadixString>[{}]", strat.label()),
-                &format!("{STR_SPACE} {cfg_text}"),
-                move |tier, f: &mut dyn FnMut(AdvStrCase) -> bool| {
-                    for cfg in adv_cfgs(strat) {
-                        // the LSD grid is about integer digits; for strings keep radix_bits 8 and 16 only
-                        if matches!(strat, Strat::Forced(SortingStrategy::LsdRadix)) && !(cfg.bits == 8 || cfg.bits == 16) {
-                            continue;
-                        }
-                        if !str_inputs(tier, &mut |strs| f(AdvStrCase { strs, cfg })) {
-                            return false;
-                        }
-                    }
-                    true
-                },
-                move |c: &AdvStrCase| run_adv_str(strat, c),
+                &format!("AdvancedRadixSort[{}]", strat.label()),
+                &format!("item types u32, u64 ({INT_SPACE}) and RadixString ({STR_SPACE}) x config grid: LsdRadix: radix_bits {{1,4,8,11,16}} x parallel {{off,1,4,16}} x simd on/off (+ num_threads 3, secure pool); MsdRadix: insertion threshold {{0,2,100}}; auto: insertion threshold {{0,2,100}} x parallel {{off,4}} x simd; others: secure pool on/off"),
+                adv_gen(strat),
+                move |c: &AdvCase| run_adv(strat, c),
             );
         }
+
+        for path in [CoPath::L1, CoPath::L2, CoPath::L3, CoPath::Funnel, CoPath::DirectFunnel, CoPath::HybridAware, CoPath::HybridFunnel, CoPath::Default] {
+            add(
+                reg,
+                &format!("CacheObliviousSort[{:?}]", path),
+                &format!("{INT_SPACE} (u64 items; u128 for L2/L3) x config: funnel width k in {{2,3,4,9,16,64}} x small_threshold {{1,2,4,16,1024}} for the funnel paths, simd on/off for L1; Default adds n in {{4095,4096,4097,8193}}; cases whose funnel recursion reaches width 1 above small_threshold are left out (crash)"),
+                co_gen(path),
+                run_co,
+            );
+        }
+        add(reg, "ReplaceSelectSort", &format!("ReplaceSelectSort::sort: item types u64,u32 x {INT_SPACE} (n <= 257) x memory budget {{<1,1,2,3}} items x merge_ways {{2,3,16}} (+ secure pool for one point); <Vec<u64> as ExternalSort>::external_sort_with_config: same inputs x memory budget, merge_ways 2; temp dir /dev/shm/zverif/c11-ext-<pid> created and removed per case"), ext_gen, run_ext);
+
+        add(reg, "MultiWayMerge[heap]", MERGE_SPACE, merge_gen(&[0], 4, 4), run_multiway);
+        add(reg, "MultiWayMerge[hierarchical]", &format!("{MERGE_SPACE}; max_merge_ways = 2"), merge_gen(&[2, 3], 4, 4), run_multiway);
+        add(reg, "MultiWayMerge[tournament]", &format!("use_tournament_tree = true: {MERGE_SPACE} (<= 8 sources: heap path) ∪ the same tuples + 5 fixed runs [],[0],[1,1],[2],[0,1,2] (9 sources: tournament path); thorough adds all 4^9 tuples of nine runs of length <= 1"), |t, f| merge_gen(&[1, 5], 4, 4)(t, f) && nine_gen(t, f), run_multiway);
+        add(reg, "MergeOperations::{merge_two,merge_in_place}", "all pairs of sorted runs of length <= 4 (quick) / <= 6 (thorough) over {0,1,2}; merge_in_place on a ++ b with mid = |a|", pair_gen(&[0, 1]), run_merge_ops);
+        add(reg, "EnhancedLoserTree", &format!("0..4 ways: {MERGE_SPACE} x (stable_sort, cache_optimized) in {{(1,1),(0,0),(1,0),(0,1)}} via merge_to_vec, and (1,1),(0,0) via initialize()+peek()/next(); 5 ways: all 5-tuples of runs of length <= 1 (quick) / <= 2 (thorough); secure pool: <= 2 ways"), loser_gen, run_loser_tree);
+        add(reg, "SimdComparator::merge_sorted_i32", "all pairs of sorted runs of length <= 3 (quick) / <= 4 (thorough) over {MIN,-1,0,2,MAX}; G = lengths {0,1,7,8,9,15,16,17,33,100}^2 x {interleaved, left smaller, right smaller, all equal}; x (min_vector_size, use_avx2) in {(1,on),(8,on),(1,off)}", simd_gen, run_simd);
+        add(reg, "SimdOperations::merge_multiple_sorted", MERGE_SPACE, merge_gen(&[0], 4, 4), run_simd_multi);
+
+        for &(fun, name) in ALL_SETFNS {
+            add(
+                reg,
+                &format!("set_ops::{name}"),
+                "all pairs of sorted multisets of length <= 4 over {0,1,2} (quick) / <= 5 over {0,1,2,3} (thorough); fast variants x ratio threshold {0,1,2,32}; 1small/fast variants additionally against one 100-element sequence",
+                setfn_gen(fun),
+                move |c: &PairCase| run_setfn(fun, c),
+            );
+        }
+        for (op, name) in [
+            (KOp::Union, "SetOperations::union"),
+            (KOp::Frequencies, "SetOperations::count_frequencies"),
+            (KOp::FilterMerge, "SetOperations::filter_merge"),
+        ] {
+            add(reg, name, &format!("{MERGE_SPACE} (quick: <= 3 runs)"), merge_gen(&[0], 3, 4), move |c: &MergeCase| run_kop(op, c));
+        }
+        add(reg, "SetOperations::intersection", &format!("{MERGE_SPACE} (quick: <= 3 runs) x variant {{bit-mask path (default), use_bit_mask_optimization=false, bit_mask_threshold=1}}; all variants are compared with the same k-way min-multiplicity reference, i.e. with each other"), merge_gen(&[0, 1, 2], 3, 4), |c: &MergeCase| run_kop(KOp::Inter, c));
     });
 }
